@@ -283,6 +283,7 @@ fn hook_post(e: &shim::Event, result: u64, ok: bool) {
         }
         shim::Op::FetchAdd => format!("fetch_add {} = {} @{}:{}", loc, result, site, o),
         shim::Op::FetchSub => format!("fetch_sub {} = {} @{}:{}", loc, result, site, o),
+        shim::Op::Rmw => format!("{} {} {} = {} @{}:{}", e.name, loc, e.arg, result, site, o),
         shim::Op::Cas | shim::Op::CasWeak => format!(
             "{} {} {}->{} = {}{} @{}:{}/{}",
             if e.op == shim::Op::Cas { "cas" } else { "cas_weak" },
